@@ -115,6 +115,69 @@ def build_case(case):
         shutil.rmtree(root, ignore_errors=True)
 
 
+def whole_case(arg):
+    """whole_archive(): a static library wrapped into a shared library (the
+    executable calls functions of both of its objects through the shared
+    library only), and linked whole into an executable that calls nothing"""
+    layout, mode = arg
+    lay = LAYOUTS[layout]
+
+    def at(i, name):
+        return (lay[i] + '/' if lay[i] else '') + name
+    root = scratch('verif-c14w-')
+    try:
+        src = os.path.join(root, 'src')
+        os.makedirs(src)
+        W = lambda n, t: open(os.path.join(src, n), 'w').write(t)
+        W('L1a.c', 'int f_1(void){return 1;}\n')
+        W('L1b.c', 'int g_1(void){return 100;}\n')
+        W('S.c', 'int s(void){return 5;}\n')
+        W('main.c', '#include <stdio.h>\nint f_1(void);int g_1(void);'
+          'int s(void);int main(void){printf("%d\\n", f_1()+g_1()+s());'
+          'return 0;}\n')
+        W('main2.c', 'int main(void){return 0;}\n')
+        W('build.bfg', "project('p')\n"
+          "L1 = static_library(%r, ['L1a.c', 'L1b.c'])\n"
+          "S = shared_library(%r, ['S.c'], libs=[whole_archive(L1)])\n"
+          "executable(%r, ['main.c'], libs=[S])\n"
+          "executable(%r, ['main2.c'], libs=[whole_archive(L1)])\n" % (
+              at(1, 'L1'), at(2, 'S'), at(0, 'prog'), at(0, 'prog2')))
+        env = tool_env()
+        bld = os.path.join(root, 'build')
+        rc, out = run(['/venv/bin/bfg9000', 'configure', bld,
+                       '--no-resolve-packages', '--backend=make'] + mode,
+                      cwd=src, env=env)
+        if rc != 0:
+            return [{'ev': 'Build', 'exit': 100 + rc, 'note': out[-300:]}]
+        rc, out = run(['make', '-j2'], cwd=bld, env=env)
+        events = [{'ev': 'Build', 'exit': rc, 'note': out[-500:] if rc else ''}]
+        if rc != 0:
+            return events
+
+        def runprog(b):
+            rc, out = run([os.path.join(b, at(0, 'prog'))], cwd='/',
+                          env={'PATH': '/usr/bin:/bin'})
+            try:
+                val = int(out.strip())
+            except ValueError:
+                val = -1
+            return {'ev': 'RunRaw', 'exit': rc, 'out': val, 'want': 106,
+                    'note': out[-200:] if rc else ''}
+        events.append(runprog(bld))
+        rc, out = run(['nm', os.path.join(bld, at(0, 'prog2'))], env=env)
+        events.append({'ev': 'Symbols', 'want': ['f_1', 'g_1'], 'defined': [
+            ln.split()[-1] for ln in out.splitlines()
+            if len(ln.split()) == 3 and ln.split()[1] == 'T']})
+        moved = os.path.join(root, 'elsewhere', 'moved build')
+        os.makedirs(os.path.dirname(moved))
+        os.rename(bld, moved)
+        events.append({'ev': 'Move'})
+        events.append(runprog(moved))
+        return events
+    finally:
+        shutil.rmtree(root, ignore_errors=True)
+
+
 def main(argv):
     ck = Check('C14', argv)
     n = 3
@@ -167,6 +230,8 @@ def main(argv):
                           'ok': True, 'expected': None, 'mode': [],
                           'layout': lay})
     res = pmap(build_case, cases, jobs=12)
+    wjobs = [(lay, MODES[lay % len(MODES)]) for lay in range(len(LAYOUTS))]
+    wres = pmap(whole_case, wjobs, jobs=12)
     traces = [{'id': i + 1, 'events': [
         {k: v for k, v in e.items() if k != 'note'} for e in ev]}
         for i, ev in enumerate(res)]
@@ -177,6 +242,12 @@ def main(argv):
         tr['events'][0]['kind'] = [
             ('shared' if shared_on else 'static') if k == 'library' else k
             for k in c['kind']]
+    for (lay, mode), ev in zip(wjobs, wres):
+        cases.append({'whole_archive': True, 'layout': lay, 'mode': mode,
+                      'deps': [[]], 'kind': [], 'elibs': [], 'ecall': []})
+        res.append(ev)
+        traces.append({'id': len(traces) + 1, 'events': [
+            {k: v for k, v in e.items() if k != 'note'} for e in ev]})
     rej, st = validate_traces('Link_Trace', 'CONSTANTS N = %d KeepFirst = '
                               'FALSE\nSPECIFICATION TraceSpec\n'
                               'CHECK_DEADLOCK FALSE\n' % n, traces, chunk=50)
@@ -188,7 +259,7 @@ def main(argv):
     for tid, info in sorted(rej.items()):
         c = cases[tid - 1]
         ev = res[tid - 1][info[1] - 1]
-        kinds = traces[tid - 1]['events'][0]['kind']
+        kinds = traces[tid - 1]['events'][0].get('kind', [])
         # the design model (forwarded libraries appended, first occurrence
         # kept, single-pass linker) itself predicts this link to fail
         shape = ('design-predicted-keep-first-order'
